@@ -3,6 +3,7 @@
 # scratch worktree of /repo and runs that property's check against it.  Expected: exit 0 (no alarm).
 cd "$(dirname "$0")/.."
 dirs=${@:-$(ls -d benign/*/ 2>/dev/null)}
+find /root/.cache/go-build -type f -amin +120 -delete 2>/dev/null
 tier=${TIER:-quick}
 for d in $dirs; do
   d=${d%/}
